@@ -78,7 +78,27 @@ def unit_attempt_field(has_prompt=True):
             out.append(('returns-none', z3.BoolVal(p.outcome[1] is None)))
             x = z3.Const('_x', corevc.OBJ)
             out.append(('queue-only-grows', z3.ForAll([x], s1.Q.cnt[x] >= pre.Q.cnt[x])))
+            out.append(('answered-input-list-untouched', z3.And(s1.MI.size == pre.MI.size, z3.ForAll([sm.L], s1.MI.cnt[sm.L] == pre.MI.cnt[sm.L]))))
+            out.append(('inputs-untouched-by-an-attempt', z3.ForAll([sm.L], s1.C.mem[sm.L] == pre.C.mem[sm.L])))
+            out.append(('refusal-flag-untouched', (corevc.to_term(s1.refused) == corevc.to_term(pre.refused)) if isinstance(pre.refused, corevc.SV) else z3.BoolVal(s1.refused is pre.refused)))
             out.append(('one-evaluation-per-attempt', z3.BoolVal(it.ghost.get('evaluations', 0) + it.ghost.get('attempts', 0) >= 1)))
+            ok = it.ghost.get('oracle_ok')
+            if ok is not None and it.ghost.get('attempts', 0) == 0:
+                nm, val = ok
+                out.append(('stored-value-is-the-evaluation-result', z3.And(s1.V.has[nm], s1.V.val[nm] == val)))
+                out.append(('a-computed-line-is-announced-as-met', s1.MF.cnt[nm] >= 1))
+            # C04: what an attempt may schedule
+            L = sm.L
+            isreq = it.ghost.get('last_requires_line')
+            regs = it.ghost.get('registrations', [])
+            dep = [d for key, d, x in regs if key == 'wd']
+            allowed = lambda l: z3.Or(pre.S.mem[l], *([l == dep[0]] if dep else []), *([isreq(l)] if isreq is not None else []))
+            if it.ghost.get('attempts', 0) == 0:
+                out.append(('schedules-only-the-demanded-line-and-required-lines-of-its-new-form', z3.ForAll([L], z3.Implies(s1.S.mem[L], allowed(L)))))
+                x = z3.Const('_x', corevc.OBJ)
+                out.append(('queues-only-scheduled-lines', z3.ForAll([x], z3.Implies(s1.Q.cnt[x] > pre.Q.cnt[x], z3.And(z3.Not(pre.S.mem[sm.name_of(x)]), s1.S.mem[sm.name_of(x)])))))
+                if dep:
+                    out.append(('the-demanded-line-is-scheduled', s1.S.mem[dep[0]]))
         else:
             exc = p.outcome[1]
             out.append(('propagated-exception-is-not-a-handled-one', z3.BoolVal(not isinstance(exc, handled))))
@@ -96,6 +116,67 @@ def unit_attempt_field(has_prompt=True):
     return collect('_attempt_field', paths, post, 'solver.py:Solver._attempt_field', props_of), paths
 
 
+def unit_add_form(input_only):
+    sm = spec_mod()
+    solver, values, inputs, fields, form = sm.classes()
+    spec = sm.SolverSpec('_add_form', True)
+    fn = solver.Solver._add_form
+    z = z3
+
+    def make_state(it):
+        me = spec.fresh_state(it)
+        it.ghost['self'] = me
+        n = corevc.fresh('form_name', corevc.NAME)
+        it.ghost['adding_form_name'] = n
+        it.ghost['pre'] = sm.St(me.snap(), dict(it.ghost))
+        it.ghost['fname'] = n
+        return [me, corevc.wrap(n), input_only], {}
+
+    def post(p):
+        it, me = p.interp, p.post_self
+        pre = it.ghost['pre']
+        n = it.ghost['fname']
+        s1 = spec.st(it, me)
+        L = sm.L
+        out = []
+        if p.outcome[0] != 'return':
+            exc = p.outcome[1]
+            if isinstance(exc, NotImplementedError):
+                out.append(('unsupported-form-aborts-only-when-not-catalogued', z.Not(pre.FMAP.has[sm.class_part(n)])))
+                out.append(('unsupported-form-abort-changes-nothing', z.And(s1.FM.has == pre.FM.has, s1.IM.has == pre.IM.has, s1.S.mem == pre.S.mem, s1.Q.cnt == pre.Q.cnt, s1.F.has == pre.F.has)))
+            else:
+                out.append(('no-other-exception', z.BoolVal(False)))
+            return out
+        isin = lambda l: z.And(sm.DECL_INPUT(l), sm.form_part(l) == n)
+        isline = lambda l: z.And(sm.DECL_LINE(l), sm.form_part(l) == n)
+        isreq = lambda l: z.And(sm.REQ_LINE(l), sm.form_part(l) == n)
+        x = z.Const('_x', corevc.OBJ)
+        out.append(('form-is-catalogued', pre.FMAP.has[sm.class_part(n)]))
+        out.append(('inputs/keys', z.ForAll([L], s1.IM.has[L] == z.Or(pre.IM.has[L], isin(L)))))
+        out.append(('inputs/old-values-kept', z.ForAll([L], z.Implies(z.And(pre.IM.has[L], z.Not(isin(L))), s1.IM.val[L] == pre.IM.val[L]))))
+        out.append(('inputs/new-values-named', z.ForAll([L], z.Implies(isin(L), sm.name_of(s1.IM.val[L]) == L))))
+        out.append(('values-inputs-trackers-untouched', z.And(s1.V.has == pre.V.has, s1.V.val == pre.V.val, s1.N.cnt == pre.N.cnt, s1.UF.cnt == pre.UF.cnt, s1.UI.cnt == pre.UI.cnt,
+                                                            s1.MF.cnt == pre.MF.cnt, s1.MI.cnt == pre.MI.cnt, s1.C.mem == pre.C.mem)))
+        if input_only:
+            out.append(('input-only/registers-no-line', z.And(s1.FM.has == pre.FM.has, s1.FM.val == pre.FM.val)))
+            out.append(('input-only/schedules-nothing', z.And(s1.S.mem == pre.S.mem, s1.Q.cnt == pre.Q.cnt, s1.Q.size == pre.Q.size)))
+            out.append(('input-only/form-does-not-take-part', z.And(s1.F.has == pre.F.has, s1.F.val == pre.F.val)))
+        else:
+            out.append(('lines/keys', z.ForAll([L], s1.FM.has[L] == z.Or(pre.FM.has[L], isline(L)))))
+            out.append(('lines/old-values-kept', z.ForAll([L], z.Implies(z.And(pre.FM.has[L], z.Not(isline(L))), s1.FM.val[L] == pre.FM.val[L]))))
+            out.append(('lines/new-values-named', z.ForAll([L], z.Implies(isline(L), sm.name_of(s1.FM.val[L]) == L))))
+            out.append(('form-takes-part', z.ForAll([L], s1.F.has[L] == z.Or(pre.F.has[L], L == n))))
+            out.append(('other-forms-kept', z.ForAll([L], z.Implies(z.And(pre.F.has[L], L != n), s1.F.val[L] == pre.F.val[L]))))
+            out.append(('schedules-exactly-the-required-lines', z.ForAll([L], s1.S.mem[L] == z.Or(pre.S.mem[L], isreq(L)))))
+            out.append(('queues-exactly-the-required-lines', z.ForAll([x], s1.Q.cnt[x] == pre.Q.cnt[x] + z.If(z.And(isreq(sm.name_of(x)), s1.FM.val[sm.name_of(x)] == x), 1, 0))))
+        return out
+
+    def props_of(label):
+        return ['C04', 'C01', 'C10']
+    paths = corevc.run_function(fn, make_state, spec)
+    return collect('_add_form' + ('[input_only]' if input_only else ''), paths, post, 'solver.py:Solver._add_form', props_of), paths
+
+
 def unit_solve(has_prompt=True):
     sm = spec_mod()
     solver, values, inputs, fields, form = sm.classes()
@@ -110,7 +191,11 @@ def unit_solve(has_prompt=True):
         names = corevc.ZBag.havoc(corevc.NAME, 'form_names')
         for f in names.wf():
             it.run.fact(f)
+        # requires: the requested form names are distinct and none of them is loaded yet
+        it.run.fact(z3.ForAll([sm.Dn], z3.Implies(names.cnt[sm.Dn] > 0, z3.And(names.cnt[sm.Dn] <= 1, z3.Not(s.F.has[sm.Dn])))))
+        it.run.fact(s.MI.size == 0)      # requires: solve() starts with no answered-but-undrained input (fresh Solver)
         it.ghost['entry_state'] = sm.St(me.snap(), dict(it.ghost))
+        it.ghost['solve_entry'] = it.ghost['entry_state']
         return [me, names], {}
 
     def post(p):
@@ -121,8 +206,17 @@ def unit_solve(has_prompt=True):
             exc = p.outcome[1]
             # an exception escaping solve() is one raised by a line definition, an unsupported form, an invalid answer, ...: never swallowed
             out.append(('escaping-exception-is-propagated-unchanged', z3.BoolVal(isinstance(exc, (RuntimeError, NotImplementedError, AssertionError, KeyError)))))
+            s1 = spec.st(it, me)
+            entry = it.ghost.get('solve_entry')
+            L = sm.L
+            if entry is not None:
+                out.append(('on-exception/inputs-held-before-are-kept', z3.ForAll([L], z3.Implies(entry.C.mem[L], s1.C.mem[L]))))
+            for ix, k in enumerate(it.ghost.get('answers_stored', [])):
+                out.append(('on-exception/answers-given-are-kept', s1.C.mem[k]))
             return out
         s1 = spec.st(it, me)
+        for ix, k in enumerate(it.ghost.get('answers_stored', [])):
+            out.append(('answers-given-are-kept', s1.C.mem[k]))
         r = p.outcome[1]
         rt = corevc.to_term(r) if not isinstance(r, bool) else z3.BoolVal(r)
         L = sm.L
@@ -148,7 +242,7 @@ if __name__ == '__main__':
     warnings.simplefilter('ignore')
     extract.setup_path()
     t0 = time.time()
-    obs, paths = (unit_solve if 'solve' in sys.argv else unit_attempt_field)()
+    obs, paths = (unit_solve if 'solve' in sys.argv else (lambda: unit_add_form('only' in sys.argv)) if 'addform' in sys.argv else unit_attempt_field)()
     print(len(paths), 'paths', round(time.time() - t0, 1), 's')
     for p in paths:
         print('  ', p.outcome if p.outcome[0] != 'return' else 'return', p.sig()[:150], len(getattr(p, 'obligations', [])))
